@@ -21,8 +21,9 @@ package ingress
 //@   ensures selectedSecrets == out && selectedAt == at
 
 //@ type nonceCache monitor mu
-//@   guards m, now
+//@   guards m, now, extra
 //@   inv [map] self.m != nil
+//@   inv [retention_not_shortened] self.extra >= 0
 
 //@ func newNonceCache
 //@   ensures [fresh] result != nil && fresh(result) && result.m != nil && fresh(result.m) && (forall k string :: !(k in result.m))
@@ -34,20 +35,25 @@ package ingress
 //@ func (*nonceCache).seenOnceAt
 //@   requires c != nil
 //@   modifies c.m, cacheClock
-//@   loop 1 invariant [only_expired_dropped] forall k string :: old(k in c.m) && now <= old(c.m[k]) ==> k in c.m && c.m[k] == old(c.m[k])
+//@   loop 1 invariant [only_expired_dropped] forall k string :: old(k in c.m) && now <= old(c.m[k]) + c.extra ==> k in c.m && c.m[k] == old(c.m[k])
 //@   loop 1 invariant [no_new] (forall k string :: k in c.m ==> old(k in c.m) && c.m[k] == old(c.m[k])) && c.m != nil
-//@   ensures [C09:reject_while_window_open] let at := ite(now != 0, now, cacheClock) :: old(nonce in c.m) && at <= old(c.m[nonce]) ==> !result
+//@   ensures [C09:reject_while_window_open] let at := ite(now != 0, now, cacheClock) :: old(nonce in c.m) && at <= old(c.m[nonce]) + c.extra ==> !result
 //@   ensures [C09:records_expiry] result ==> nonce in c.m && c.m[nonce] == expiresAt
-//@   ensures [C09:live_entries_kept] let at := ite(now != 0, now, cacheClock) :: forall k string :: k != nonce && old(k in c.m) && at <= old(c.m[k]) ==> k in c.m && c.m[k] == old(c.m[k])
+//@   ensures [C09:live_entries_kept] let at := ite(now != 0, now, cacheClock) :: forall k string :: k != nonce && old(k in c.m) && at <= old(c.m[k]) + c.extra ==> k in c.m && c.m[k] == old(c.m[k])
 //@   ensures [C09:refusal_keeps_entry] !result && nonce != "" ==> nonce in c.m && c.m[nonce] == old(c.m[nonce])
-//@   ensures [C09:accepts_new] let at := ite(now != 0, now, cacheClock) :: nonce != "" && !(old(nonce in c.m) && at <= old(c.m[nonce])) ==> result
+//@   ensures [C09:accepts_new] let at := ite(now != 0, now, cacheClock) :: nonce != "" && !(old(nonce in c.m) && at <= old(c.m[nonce]) + c.extra) ==> result
 //@   ensures [empty_nonce_refused] nonce == "" ==> !result
 //@   ensures [clock_untouched_when_given] now != 0 ==> cacheClock == old(cacheClock)
+
+//@ func (*nonceCache).extend
+//@   requires c != nil
+//@   modifies c.extra
+//@   ensures [C09:retention_only_grows] c.extra == old(c.extra) + ite(d > 0, d, 0)
 
 //@ func (*nonceCache).seenOnce
 //@   requires c != nil
 //@   modifies c.m, cacheClock
-//@   ensures [C09:reject_while_window_open] old(nonce in c.m) && cacheClock <= old(c.m[nonce]) ==> !result
+//@   ensures [C09:reject_while_window_open] old(nonce in c.m) && cacheClock <= old(c.m[nonce]) + c.extra ==> !result
 //@   ensures [C09:records_expiry] result ==> nonce in c.m && c.m[nonce] == expiresAt
 
 //@ func secureEqual
@@ -79,7 +85,8 @@ package ingress
 //@   ensures [C08:signature_matches_a_secret] hmacConfigured(a) && result == nil ==> let sig := hexdecOf(trim(headerGet(r.Header, a.SignatureHeader))) :: let msg := signedMessage(trim(headerGet(r.Header, a.TimestampHeader)), r.Method, requestPath, body) :: let i := rangeindex1 :: (a.SelectSecrets == nil ==> 0 <= i && i < len(a.Secrets) && len(a.Secrets[i]) > 0 && sig == hmacSHA256(a.Secrets[i], msg)) && (a.SelectSecrets != nil ==> 0 <= i && i < len(selectedSecrets) && len(selectedSecrets[i]) > 0 && sig == hmacSHA256(selectedSecrets[i], msg))
 //@   ensures [C08:secrets_valid_at_signed_time] hmacConfigured(a) && result == nil && a.SelectSecrets != nil ==> selectedAt == unixTime(ext2("strconv.ParseInt", "$0", trim(headerGet(r.Header, a.TimestampHeader)), 10, 64))
 //@   ensures [C09:nonce_recorded_until_window_end] hmacConfigured(a) && result == nil ==> a.nonce != nil && trim(headerGet(r.Header, a.NonceHeader)) in a.nonce.m && a.nonce.m[trim(headerGet(r.Header, a.NonceHeader))] == unixTime(ext2("strconv.ParseInt", "$0", trim(headerGet(r.Header, a.TimestampHeader)), 10, 64)) + a.Tolerance
-//@   ensures [C09:replay_rejected] let n := trim(headerGet(r.Header, a.NonceHeader)) :: hmacConfigured(a) && old(a.nonce != nil) && old(n in a.nonce.m) && clockNow <= old(a.nonce.m[n]) ==> result != nil
+//@   ensures [C09:timestamps_the_previous_window_had_dropped_stay_refused] hmacConfigured(a) && result == nil && a.notBefore != 0 ==> unixTime(ext2("strconv.ParseInt", "$0", trim(headerGet(r.Header, a.TimestampHeader)), 10, 64)) >= a.notBefore
+//@   ensures [C09:replay_rejected] let n := trim(headerGet(r.Header, a.NonceHeader)) :: hmacConfigured(a) && old(a.nonce != nil) && old(n in a.nonce.m) && clockNow <= old(a.nonce.m[n]) + a.nonce.extra ==> result != nil
 
 //@ func (*ForwardAuth).Authorize
 //@   modifies sends, lastRespCode, forwardAsked, forwardVerdict, forwardCalls
@@ -94,9 +101,13 @@ package ingress
 //@   ensures [C08:forward_one_call] sends == old(sends) || sends == old(sends) + 1
 
 //@ func (*HMACAuth).InheritReplayState
-//@   modifies a.nonce
+//@   modifies a.nonce, a.notBefore, field(prev.nonce.extra), clockNow
 //@   ensures [C09:inherits] a != nil && prev != nil && prev.nonce != nil ==> a.nonce == prev.nonce
-//@   ensures [C09:else_untouched] !(a != nil && prev != nil && prev.nonce != nil) && a != nil ==> a.nonce == old(a.nonce)
+//@   ensures [C09:else_untouched] !(a != nil && prev != nil && prev.nonce != nil) && a != nil ==> a.nonce == old(a.nonce) && a.notBefore == old(a.notBefore)
+//@   ensures [C09:a_wider_window_keeps_remembered_nonces_until_its_own_end] a != nil && prev != nil && prev.nonce != nil && prev.Tolerance > 0 && a.Tolerance > prev.Tolerance ==> a.nonce.extra == old(prev.nonce.extra) + (a.Tolerance - prev.Tolerance)
+//@   ensures [C09:timestamps_the_old_window_had_dropped_are_not_readmitted] a != nil && prev != nil && prev.nonce != nil && prev.Tolerance > 0 && a.Tolerance > prev.Tolerance ==> a.notBefore >= clockNow - prev.Tolerance && a.notBefore >= prev.notBefore
+//@   ensures [C09:floor_carried_over] a != nil && prev != nil && prev.nonce != nil ==> a.notBefore >= prev.notBefore
+//@   ensures [C09:retention_never_shrinks] prev != nil && prev.nonce != nil ==> prev.nonce.extra >= old(prev.nonce.extra)
 
 // ---- the ingress handler (C01, C07, C08, C10, C12) ----
 
